@@ -728,6 +728,15 @@ package iscp
 //@   ghostvar dialed bool = false
 //@   after call connectWire: dialed = true
 //@   ensures dialed
+// ... and what the redial loop leaves behind is the outcome of its LAST attempt: a successful
+// attempt clears the error of the failed ones before it and hands over the connection it dialled
+// (reconnect returns resErr and installs res)
+//@   ghostvar okDial bool = false
+//@   after call connectWire: okDial = (res1 == nil)
+//@   ghostvar got *wire.ClientConn = nil
+//@   after call connectWire: got = res0
+//@   ensures[C05] imp(okDial, result && resErr == nil && res == got)
+//@   ensures[C05] imp(!okDial, resErr != nil)
 
 // Per-stream watchers: when a stream's run loop ends with an error on a connection that is not
 // closed, the watcher waits for Connected and resumes THIS stream on the connection's current
